@@ -173,6 +173,7 @@ class LeanReport:
     examples: int = 0
     wall_s: float = 0.0
     pre_result: Any = None
+    leanchecker: str = "not run (quick tier)"
 
     @property
     def obligations(self):
@@ -183,7 +184,8 @@ class LeanReport:
         return sum(1 for t in self.theorems if t.get("ok"))
 
 
-def lean_check(prop_id: str, extra_targets: Iterable[str] = (), pre: Callable[[], Any] = None) -> LeanReport:
+def lean_check(prop_id: str, extra_targets: Iterable[str] = (), pre: Callable[[], Any] = None,
+               recheck: bool = False) -> LeanReport:
     """Build the property's theorems, audit their axioms, scan for forbidden tokens.
     `pre` (the extractors, which rewrite Operon/Gen) runs under the same lock as the build."""
     t0 = time.time()
@@ -253,6 +255,17 @@ def lean_check(prop_id: str, extra_targets: Iterable[str] = (), pre: Callable[[]
             rep.broken.append(t["name"])
     if rc != 0 and not rep.broken:
         rep.broken.append(f"audit:{text[-500:]}")
+    if recheck and not rep.broken:
+        # thorough tier: independent re-check of the compiled theorems by leanchecker
+        try:
+            rc2, o2, e2 = _run(["lake", "env", "leanchecker", mod], cwd=LEAN, timeout=1500)
+            rep.leanchecker = "ok" if rc2 == 0 else f"FAILED rc={rc2}: {(o2 + e2)[-400:]}"
+            if rc2 != 0:
+                rep.broken.append(f"leanchecker:{mod}")
+        except FileNotFoundError:
+            rep.leanchecker = "leanchecker not available"
+        except subprocess.TimeoutExpired:
+            rep.leanchecker = "leanchecker timed out (not counted)"
     rep.ok = rep.build_ok and not rep.broken and not rep.forbidden and bool(thms)
     rep.wall_s = time.time() - t0
     return rep
@@ -537,7 +550,7 @@ class Runner:
     def main(self) -> int:
         p = self.p
         p.setup(self)
-        lean = lean_check(p.id, pre=lambda: p.extract(self))
+        lean = lean_check(p.id, pre=lambda: p.extract(self), recheck=(self.tier == "thorough"))
         extractors = lean.pre_result or []
         findings = load_known_findings(p.id)
         open_ids = {f["id"] for f in findings if f.get("status") == "open"}
@@ -707,6 +720,7 @@ class Runner:
                 "known_findings_not_reproduced": stale,
                 "replays": replays,
                 "lean_wall_s": round(lean.wall_s, 2),
+                "leanchecker": lean.leanchecker,
             },
             "assumptions": p.assumptions,
             "wall_s": round(wall, 2),
